@@ -43,7 +43,8 @@ def load_known_findings():
 def run_native(code, timeout=120, extra_path=None):
     """Run a python snippet under the test-suite interpreter against /repo."""
     env = dict(os.environ)
-    pp = [REPO, VERIF] + (extra_path or [])
+    # z3 (pure-python wheel of the tooling venv) last, so that sidecar modules importing pyvc load under /venv too
+    pp = [REPO, VERIF] + (extra_path or []) + ["/opt/veriftools/pyvenv/lib/python3.11/site-packages"]
     env["PYTHONPATH"] = os.pathsep.join(pp)
     env["PYTHONWARNINGS"] = "ignore"
     r = subprocess.run([NATIVE_PY, "-c", code], capture_output=True, text=True, timeout=timeout, env=env)
